@@ -8,7 +8,7 @@ from .. import tlc
 from ..common import Report, pmap
 from ..e2e import base_scenario
 
-FAMILY = (r"\.pc$|^files\.scalar_valid_at_record|\.step$|^timer\.within_run|^force\.(sees_all|len|at_current)|^output\.snap|^move\.pre|^ibm\.(sees|once|module)|"
+FAMILY = (r"\.pc$|^trace\.incomplete|^files\.scalar_valid_at_record|\.step$|^timer\.within_run|^force\.(sees_all|len|at_current)|^output\.snap|^move\.pre|^ibm\.(sees|once|module)|"
           r"^close\.|^files\.closed_once|^vel\.pc|^run\.crashed")
 DRIVERS = {"e2e": ("harness.e2e", "run_e2e", "LadimTrace", FAMILY),
            "e2e-warm-start": ("harness.checks.c08", "restarted_only", "LadimTrace", FAMILY),
